@@ -815,17 +815,26 @@ class _RecFlow:
         self.name, self.seq, self.uuid = name, seq, "u-" + name
 
 
-def make_recorder(log, fail):
+def make_recorder(log, fail, hidden=None):
     class RecordingFlowParser:
-        """stands in for FlowParser inside contentindexparser: records what it is built with"""
+        """stands in for FlowParser inside contentindexparser: records what it is built with.  Anything it is handed beyond
+        the arguments the model knows (container, name, table, context, the parser itself) is a channel between instances
+        that the theorems' compiler does not have: recorded in `hidden`."""
 
         def __init__(self, rapidpro_container, flow_name, table=None, flow_uuid=None, context=None,
-                     sheet_parser=None, content_index_parser=None):
+                     sheet_parser=None, content_index_parser=None, *more, **extra):
             self.c, self.name, self.table, self.context = rapidpro_container, flow_name, table, context
+            if hidden is not None:
+                for k, val in list(extra.items()) + [(f"positional {i}", x) for i, x in enumerate(more)]:
+                    hidden.setdefault(k, []).append(val)
+                if flow_uuid is not None:
+                    hidden.setdefault("flow_uuid", []).append(flow_uuid)
+                if sheet_parser is not None:
+                    hidden.setdefault("sheet_parser", []).append(sheet_parser)
 
         def _go(self):
             seq = getattr(self.c, "_c12_seq", 0)
-            log.append((self.name, self.table, py_ctx(self.context), seq, id(self.c)))
+            log.append((self.name, self.table, py_ctx(self.context), seq, id(self.c), self.context))
             if self.name in fail:
                 raise ValueError("recorder: compile fails")
             self.c._c12_seq = seq + 1
@@ -1046,8 +1055,42 @@ def gen_bulk_case(rng, malformed):
     return dict(data=data, lookup=lookup, tdefs=tdefs, rows=rows, fail=fail, kind=kind)
 
 
+def gen_calls(rng, c):
+    """the calls of a history on the parser of bulk case c: the index as given, then the same rows in another order, a
+    sub-list with a row repeated, and get_node_group calls (valid, unknown row, half-given) in between"""
+    rows = c["rows"]
+    ids = [i for i, _ in c["data"]]
+    calls = [("all", rows)]
+    for _ in range(rng.choice([2, 3, 4])):
+        k = rng.random()
+        if k < 0.35:
+            perm = list(rows)
+            rng.shuffle(perm)
+            calls.append(("all", perm))
+        elif k < 0.6:
+            sub = [rng.choice(rows) for _ in range(rng.choice([1, 2, 3]))]
+            calls.append(("all", sub))
+        else:
+            t = rng.choice(list(c["tdefs"]))
+            args = {"t1": rng.choice([["A"], ["A", "B"], []]), "t2": rng.choice([[""], ["lookup"], ["nosuch"]]), "t3": [[""], []][rng.randrange(2)]}[t]
+            mode = rng.choice(["row", "row", "none", "half", "unknown"])
+            ds, rid = {"row": ("data", rng.choice(ids) if ids else "zz"), "none": ("", ""), "half": rng.choice([("data", ""), ("", "r1")]),
+                       "unknown": ("data", "nosuch")}[mode]
+            calls.append(("block", t, ds, rid, args))
+    if rng.random() < 0.5:
+        calls.append(calls[rng.randrange(len(calls))])     # a call repeated verbatim
+    return calls
+
+
+def enc_cfrows(rows):
+    return "(" + " ".join(f"({enc_str(r[0])} {enc_str(r[1])} {enc_str(r[2])} {enc_str(r[3])} {enc_args(r[4])})" for r in rows) + ")"
+
+
 def run_bulk_correspondence(ctx, n):
+    """Model (BulkHistory.run_calls, extracted) against ONE real ContentIndexParser per case: a history of parse_all_flows
+    passes and get_node_group calls on the same object, FlowParser replaced by a recorder; every call compared."""
     import rpft.parsers.creation.contentindexparser as cip
+    from rpft.parsers.creation.contentindexrowmodel import ContentIndexRowModel
     from rpft.rapidpro.models.containers import RapidProContainer
 
     rng, m = ctx.rng, ctx.model
@@ -1055,20 +1098,24 @@ def run_bulk_correspondence(ctx, n):
     tnum = {"t1": 1, "t2": 2, "t3": 3}
     reqs = []
     for c in cases:
+        c["calls"] = gen_calls(rng, c)
         ts = "(" + " ".join(f"({enc_str(t)} {tnum[t]} {enc_defs(d)})" for t, d in c["tdefs"].items()) + ")"
         ss = enc_sheets([("data", c["data"]), ("lookup", c["lookup"])])
-        rows = "(" + " ".join(f"({enc_str(r[0])} {enc_str(r[1])} {enc_str(r[2])} {enc_str(r[3])} {enc_args(r[4])})" for r in c["rows"]) + ")"
+        calls = "(" + " ".join(f"(0 {enc_cfrows(cl[1])})" if cl[0] == "all" else
+                               f"(1 {enc_str(cl[1])} {enc_str(cl[2])} {enc_str(cl[3])} {enc_args(cl[4])})" for cl in c["calls"]) + ")"
         fail = "(" + " ".join(enc_str(f) for f in c["fail"]) + ")"
-        reqs += [f"(112 2 {ts} {ss} {rows} {fail})", f"(112 3 {ts} {ss} {rows})"]
+        reqs.append(f"(112 5 {ts} {ss} {calls} {fail})")
     outs = m.ask_many(reqs) if m else None
     dist = {}
+    hdist = {"calls": {}, "histories": 0, "calls_total": 0, "verbatim_repeats": 0}
     nontrivial = set()
+    hidden = {}
+    shared_ctx = 0
     orig = cip.FlowParser
     try:
         for i, c in enumerate(cases):
-            ctx.v.coverage["evaluations"] += 1
             log = []
-            cip.FlowParser = make_recorder(log, set(c["fail"]))
+            cip.FlowParser = make_recorder(log, set(c["fail"]), hidden)
             # the real parser object, its registries filled by the real index processing
             sheets = {
                 "data": [["ID", "val", "items:List[str]"]] + [[i_, dict(r)["val"], ";".join(dict(r)["items"]) + (";" if len(dict(r)["items"]) == 1 else "")] for i_, r in c["data"]],
@@ -1080,47 +1127,75 @@ def run_bulk_correspondence(ctx, n):
             if r0[0] != "ok":
                 ctx.disagree("building the parser for the Bulk correspondence", repr(c), "-", repr(r0))
                 continue
-            parser = r0[1]
-            from rpft.parsers.creation.contentindexrowmodel import ContentIndexRowModel
-            parser.flow_definition_rows = [
-                (f"row {k}", ContentIndexRowModel(type="create_flow", sheet_name=[r[0]], new_name=r[1], data_sheet=r[2],
-                                                  data_row_id=r[3], template_arguments=copy.deepcopy(r[4])))
-                for k, r in enumerate(c["rows"])]
-            cont = RapidProContainer()
-            r = run_cli_mode(parser.parse_all_flows, cont)
-            key = c["kind"] + "/" + ("ok" if r[0] == "ok" else r[1])
-            dist[key] = dist.get(key, 0) + 1
+            parser = r0[1]          # ONE object for the whole history
             tables = {id(parser.template_sheets[t].table): tnum[t] for t in tnum if t in parser.template_sheets}
-            trace = [(nm, tables.get(id(tb), 0), cx) for (nm, tb, cx, seq, cid) in log]
-            if len(trace) >= 2:
-                nontrivial.add(repr((c["rows"], [i_ for i_, _ in c["data"]])))
-            if r[0] == "ok":
-                impl = ("ok", [(f.name, f.seq) for f in cont.flows], getattr(cont, "_c12_seq", 0))
-            else:
-                impl = ("err",)
-            if outs is not None:
-                mo = parse_sexp(outs[2 * i])
-                if is_err(mo):
-                    mod = ("err",)
+            mouts = parse_sexp(outs[i]) if outs is not None else None
+            hdist["histories"] += 1
+            hdist["verbatim_repeats"] += len(c["calls"]) - len({repr(x) for x in c["calls"]})
+            for j, cl in enumerate(c["calls"]):
+                ctx.v.coverage["evaluations"] += 1
+                hdist["calls_total"] += 1
+                del log[:]
+                if cl[0] == "all":
+                    parser.flow_definition_rows = [
+                        (f"row {k}", ContentIndexRowModel(type="create_flow", sheet_name=[r[0]], new_name=r[1], data_sheet=r[2],
+                                                          data_row_id=r[3], template_arguments=copy.deepcopy(r[4])))
+                        for k, r in enumerate(cl[1])]
+                    cont = RapidProContainer()
+                    r = run_cli_mode(parser.parse_all_flows, cont)
+                    impl = ("ok", [(f.name, f.seq) for f in cont.flows], getattr(cont, "_c12_seq", 0)) if r[0] == "ok" else ("err",)
                 else:
-                    mod = ("ok", [(dec_str(f[0]), f[3]) for f in mo[1]], mo[2])
-                if mod != impl:
-                    ctx.disagree("parse_all_flows (flows, order, threading)", repr((c["rows"], c["data"], c["fail"])), repr(mod), repr(impl))
-                # the plan: every FlowParser construction, in order, up to the first stop
-                plan = parse_sexp(outs[2 * i + 1])
-                mtrace = []
-                for it in plan:
-                    if is_err(it):
-                        break
-                    nm, tb, cx = it[1]
-                    mtrace.append((dec_str(nm), tb, dec_ctx(cx)))
-                    if dec_str(nm) in c["fail"]:
-                        break
-                if mtrace != trace:
-                    ctx.disagree("instances handed to FlowParser (name, table, context)", repr((c["rows"], c["data"])), repr(mtrace), repr(trace))
+                    r = run_cli_mode(parser.get_node_group, cl[1], cl[2], cl[3], copy.deepcopy(cl[4]))
+                    impl = ("ok", None, r[1].seq) if r[0] == "ok" else ("err",)     # a block is compiled in a container of its own
+                hk = cl[0] + "/" + ("ok" if r[0] == "ok" else r[1])
+                hdist["calls"][hk] = hdist["calls"].get(hk, 0) + 1
+                if j == 0:
+                    key = c["kind"] + "/" + ("ok" if r[0] == "ok" else r[1])
+                    dist[key] = dist.get(key, 0) + 1
+                trace = [(nm, tables.get(id(tb), 0), cx) for (nm, tb, cx, seq, cid, cobj) in log]
+                if len({id(x[5]) for x in log}) != len(log):
+                    shared_ctx += 1
+                if len(trace) >= 2:
+                    nontrivial.add(repr((cl, [i_ for i_, _ in c["data"]])))
+                if mouts is None:
+                    continue
+                mo = mouts[j]
+                what = f"call {j} of the history {c['calls']!r} on one ContentIndexParser"
+                if cl[0] == "all":
+                    res, plan = mo
+                    mod = ("err",) if is_err(res) else ("ok", [(dec_str(f[0]), f[3]) for f in res[1]], res[2])
+                    if mod != impl:
+                        ctx.disagree("parse_all_flows (flows, order, threading): " + what, repr((cl[1], c["data"], c["fail"])), repr(mod), repr(impl))
+                    # the plan: every FlowParser construction, in order, up to the first stop
+                    mtrace = []
+                    for it in plan:
+                        if is_err(it):
+                            break
+                        nm, tb, cx = it[1]
+                        mtrace.append((dec_str(nm), tb, dec_ctx(cx)))
+                        if dec_str(nm) in c["fail"]:
+                            break
+                    if mtrace != trace:
+                        ctx.disagree("instances handed to FlowParser (name, table, context): " + what, repr((cl[1], c["data"])), repr(mtrace), repr(trace))
+                else:
+                    if is_err(mo):
+                        mod, mtrace = ("err",), None
+                    else:
+                        mod, mtrace = ("ok", None, mo[3]), [(tb_, dec_ctx(cx_)) for tb_, cx_ in [(mo[1], mo[2])]]
+                    if mod != impl:
+                        ctx.disagree("get_node_group: " + what, repr(cl), repr(mod), repr(impl))
+                    elif mtrace is not None and [(t_, c_) for (_, t_, c_) in trace] != mtrace:
+                        ctx.disagree("get_node_group hands FlowParser (table, context): " + what, repr(cl), repr(mtrace), repr(trace))
     finally:
         cip.FlowParser = orig
+    if hidden:
+        ctx.disagree("FlowParser is constructed with arguments the model's compiler does not have (a channel between instances other "
+                     "than the container state)", sorted(hidden), "container, name, table, context, content_index_parser",
+                     {k: [type(x).__name__ for x in v[:3]] for k, v in hidden.items()})
+    if shared_ctx:
+        ctx.disagree("two FlowParsers of one call are handed the SAME context object", shared_ctx, "a fresh dict per instance", "shared")
     ctx.stats["bulk_model_cases"] = dist
+    ctx.stats["bulk_model_histories"] = hdist
     return nontrivial
 
 
@@ -1334,7 +1409,9 @@ def run(ctx):
 
     # ---------------- (b) differential
     n_cases = (3000 if thorough else 110) * ctx.scale
-    dist = {"valid": 0, "malformed": {}, "A_ok": 0, "A_err": 0, "instances": 0, "features": {}, "data_rows": {}}
+    dist = {"valid": 0, "malformed": {}, "A_ok": 0, "A_err": 0, "instances": 0, "features": {}, "data_rows": {},
+            "markup_kind": {}, "markup_column": {}, "markup_form": {},
+            "histories_on_one_parser": {"run": 0, "calls": {}, "lengths": {}, "with_a_repeated_call": 0, "registry_changed_by_calls": 0}}
     samples = []
     for k in range(n_cases):
         malformed = (k % 7 == 6)
@@ -1350,9 +1427,25 @@ def run(ctx):
         dist["A_ok" if rec.get("A") == "ok" else "A_err"] += 1
         dist["instances"] += rec.get("instances", 0)
         dist["data_rows"][len(case["ids"])] = dist["data_rows"].get(len(case["ids"]), 0) + 1
+        mks = list(case["blk2"]["feats"]) + list(case["blk2"]["blk3"])
         for tp in case["templates"].values():
-            for f, _ in tp["feats"]:
+            for f, p_ in tp["feats"]:
                 dist["features"][f] = dist["features"].get(f, 0) + 1
+                if f in ("mk", "mkloop"):
+                    mks.append(p_)
+                elif f == "mkblock":
+                    mks += [p_["arg"]] + ([p_["row"]] if p_["row"] else [])
+        for q in mks:
+            for kk, vv in (("markup_kind", q["kind"]), ("markup_column", q["col"]), ("markup_form", q["form"])):
+                dist[kk][vv] = dist[kk].get(vv, 0) + 1
+        if "history_ops" in rec:
+            h = dist["histories_on_one_parser"]
+            h["run"] += 1
+            h["lengths"][len(rec["history_ops"])] = h["lengths"].get(len(rec["history_ops"]), 0) + 1
+            for o in rec["history_ops"]:
+                h["calls"][o] = h["calls"].get(o, 0) + 1
+            h["with_a_repeated_call"] += 1 if rec.get("history_repeats") else 0
+            h["registry_changed_by_calls"] += 1 if rec.get("registry_changed") else 0
         if rec.get("A") == "ok" and rec.get("instances", 0) >= 2:
             nontrivial.add(json.dumps(case, sort_keys=True, default=str))
         if k < 2:
@@ -1368,12 +1461,21 @@ def run(ctx):
         "parse_all_flows with FlowParser replaced by a recorder; (b) generated workbooks (templates with loops over a data field, "
         "literal loops, include_if, inserted blocks with own data row and arguments, sheet arguments, a template expression that "
         "mutates a data-row list, groups, routers, start_new_flow; 1..5 data rows; 6/7 valid, 1/7 malformed) compiled by "
-        "create_flows as bulk index, row-by-row index, permuted index and single instances alone. non-trivial = distinct "
+        "create_flows as bulk index, row-by-row index, permuted index and single instances alone; since wave 3 every template also "
+        "draws markup features: a cell of one of 24 forms (45% statements only - if / elif / set / for / in, whitespace control -, 43% "
+        "expressions, filters, ternaries, natives, 12% comment / raw / literal controls) over a value that differs between instances "
+        "(data field, argument, loop variable) in message_text, choices, condition, include_if, the list of a begin_for, a group name, "
+        "the argument and the data row id of an inserted block (generated blocks blk2 -> blk3 with markup of their own), top level and "
+        "inside loops; and every compiled case ends with a history on ONE ContentIndexParser: the sampled instances through "
+        "_parse_flow in a drawn order, one of them repeated, a parse_all_flows pass in between, each compared with the instance "
+        "compiled alone by a fresh parser; (a) the Bulk correspondence runs histories of parse_all_flows / get_node_group calls "
+        "(permuted rows, sub-lists with repeats, failing calls) through the extracted run_calls and one real parser. non-trivial = distinct "
         "argument case with at least one declaration, distinct Bulk-model case with >= 2 instances, distinct workbook whose bulk "
         "index compiles and has >= 2 instances")
     v.coverage["samples"] = samples
     v.assumptions += [
-        "the compilation of one flow (FlowParser) is a section variable of the theorems: its only channel between instances is the container state",
+        "the compilation of one flow (FlowParser) is a section variable of the theorems: its only channel between instances is the container state "
+        "(the recorder of the correspondence reports any further argument FlowParser is constructed with, and a context object shared by two instances)",
         "flow.name of the compiled flow is the flow_name FlowParser was given (checked on the real output: names compared)",
         "invented identifiers are strings of UUID shape; two outputs are equal when a bijection on them makes the JSON trees equal",
         "data-row IDs are non-blank (hypothesis of C12_bulk_is_map; the blank-ID case is C12_blank_id_is_not_an_instance_refuted)",
